@@ -1204,15 +1204,10 @@ class Variogram(object):
         if not isinstance(self.distance_matrix, sparse.spmatrix):
             raise RuntimeWarning("Only available for sparse coordinates.")
 
-        m = self.distance_matrix
-        c = m.tocsc()
-        c.data = c.indices
-        rows = c.tocsr()
-        filt = sparse.csr_matrix(
-            (m.indices < rows.data, m.indices, m.indptr),
-            m.shape
-        )
-        return m.multiply(filt)
+        # take the strict lower triangle; unlike a multiplication with a
+        # boolean mask this keeps the explicitly stored zero distances of
+        # co-located points
+        return sparse.tril(self.distance_matrix, k=-1, format='csr')
 
     @property
     def distance_matrix(self):
